@@ -57,6 +57,9 @@ _SPECS = [  # (fmt, file name the image is called by, size, dpi kwarg)
     ("PNG", "odd.png", (5, 4), (110, 110)),
     ("JPEG", "p64.jpg", (9, 2), (64, 350)),
     ("TIFF", "fine.tif", (3, 5), (2048, 7)),
+    # the same format, pixel size and resolution as b.bmp and therefore the same BYTE LENGTH, other pixels: two files no file-system
+    # attribute tells apart (via "samepath" writes one image after the other to one path)
+    ("BMP", "b2.bmp", (6, 2), (300, 300)),
 ]
 
 
@@ -162,6 +165,11 @@ class Run:
 
     def _src(self, img: int, via: str):
         u = self.U[img - 1]
+        if via == "samepath":          # ONE file, overwritten with the image wanted each time
+            p = os.path.join(self.scratch, "%d_current_image" % os.getpid())
+            with open(p, "wb") as f:
+                f.write(u["bytes"])
+            return p
         if via == "path":
             p = os.path.join(self.scratch, "%d_%s" % (os.getpid(), u["file"]))
             with open(p, "wb") as f:
